@@ -1,6 +1,45 @@
 """Per-property configuration of ./check (sub-command of the harness, Lean modules, evidence text)."""
 
+CAFS_TRUSTED = ["BLAKE2b: the Lean implementation (Model/Blake2b.lean) equals minio/blake2b-simd and Python hashlib (tested, not proved); "
+                "collision-freeness is an explicit hypothesis (NoCollision) of the theorems that need it",
+                "harness/internal/memstore as the blob store contract"]
+
 PROPS = {
+    "C01": {
+        "sub": "c01",
+        "trivial": r"content=gen:\d+:0 ",
+        "lean_modules": ["DatamonVerif.Props.C01"],
+        "timeout_quick": 900, "timeout_thorough": 3400,
+        "level_text": "Proof: theorems about the model of the cafs writer, Put and the three readers (all contents, leaf sizes, write "
+                      "chunkings, read programs); model tied to pkg/cafs by differential runs of Put/Read/ReadAt/WriteTo on memstore.",
+        "level_note": "Trusted: Lean kernel, harness+driver, memstore as the store contract, the Lean BLAKE2b (tested against Go). "
+                      "Not in the model: buffer pool, LRU pinning, prefetch goroutines, WriteTo parallelism (exercised by the harness only).",
+        "trusted": CAFS_TRUSTED,
+        "assumptions": ["blob reader returns data then EOF separately (memstore / afero behaviour)"],
+    },
+    "C02": {
+        "sub": "c02",
+        "trivial": r"content=gen:\d+:0 ",
+        "lean_modules": ["DatamonVerif.Props.C02"],
+        "timeout_quick": 900, "timeout_thorough": 3400,
+        "level_text": "Proof: key = BLAKE2b tree root of the leaves (specKey) independent of chunking, flush completion order and store "
+                      "content; idempotent duplicate put; frame; injectivity under the no-collision hypothesis. Keys of the real code are "
+                      "compared with the Lean BLAKE2b tree hash on every put, store snapshots after every put.",
+        "level_note": "Trusted: Lean kernel, harness+driver, memstore. BLAKE2b collision-freeness is a hypothesis; CRC32 collisions are ignored "
+                      "(the CRC check of existsAndValidBlob is modelled as byte equality).",
+        "trusted": CAFS_TRUSTED,
+    },
+    "C03": {
+        "sub": "c03",
+        "trivial": r"^never-trivial$",
+        "lean_modules": ["DatamonVerif.Props.C03"],
+        "timeout_quick": 900, "timeout_thorough": 3400,
+        "level_text": "Proof: for EVERY store content (any fault), a verified read returns an error or exactly the stored bytes, under the "
+                      "no-collision hypothesis on the pairs hashed. The implementation's outcome under sampled single-blob faults is judged "
+                      "by the same predicate (error or exact bytes) evaluated in Lean.",
+        "level_note": "Trusted: Lean kernel, harness+driver, memstore. Faults are sampled in the correspondence run, universal in the theorem.",
+        "trusted": CAFS_TRUSTED,
+    },
     "C21": {
         "sub": "c21",
         "trivial": r"^enc .* ps=$",
